@@ -23,7 +23,11 @@ def eval_expr(
     if fs:
         ordered_symbols, fn = _lambdify_canonical(expr)
         data = [datamap[rv] for rv in ordered_symbols]
-        return fn(*data)
+        res = fn(*data)
+        if np.ndim(res) == 0:
+            # NOTE: The value did not depend on the data
+            return np.full(datasize, float(res))
+        return res
 
     return np.full(datasize, float(expr))
 
